@@ -379,7 +379,25 @@ example :
     let hist : List (Abi × Call) :=
       [(.preview1, .ro (.fdSeek 0 3 0 64)), (.unstable, .ro (.fdTell 0 72)), (.preview1, .fdClose 0)]
     GoodRun (initState 1000) hist := by
-  refine ⟨by decide, fun s1 r _ => ⟨trivial, fun s2 r2 _ => ⟨trivial, fun _ _ _ => trivial⟩⟩⟩
+  refine ⟨(by show (3 : Nat) < 2 ^ 64; decide), fun s1 r _ => ⟨trivial, fun s2 r2 _ => ⟨trivial, fun _ _ _ => trivial⟩⟩⟩
+
+private theorem initState_host (m : Nat) : (initState m).host = initHost m := by
+  unfold initState addPreopen
+  split
+  · rename_i s' idx hadd
+    exact (tableAdd_spec _ _ _ _ _ hadd).2.2.2.2
+  · rfl
+
+/-- … and the side condition of a positional call holds e.g. for fd_pread(0, …, offset 3) in the
+    harness's initial state (descriptor 0 = the 16-byte regular file `stdin.txt`) -/
+example : Good .preview1 (initState 1000) (.ro (.fdPread 0 200 1 3 300)) := by
+  intro d hd _
+  have h0 : getDesc Cfg.ofGen (initState 1000) 0 = some ⟨0, none, none⟩ := by decide +kernel
+  rw [h0] at hd
+  cases hd
+  rw [initState_host]
+  exact ⟨by decide, by decide, by decide, 0, 0, .rdonly, [], fileOfBytes (strBytes "0123456789abcdef"),
+    ⟨by decide, rfl, rfl, by decide⟩, by decide +kernel⟩
 
 /-- fd_close on a live descriptor with a native fd is POSIX `close` of that fd (its failure is
     reported as EBADF and leaves the table alone) -/
